@@ -79,13 +79,15 @@ func (s *Schema) UnmarshalJSONFrom(dec *jsontext.Decoder) error {
 		// This is an array of Schemas
 		s.Type = "union"
 		if err := json.UnmarshalDecode(dec, &s.Union); err != nil {
-			return fmt.Errorf("decoding union: %w", err)
+			// Not wrapped: this function recurses once per nesting level, and a
+			// wrap per level makes the error text quadratic in the depth.
+			return err
 		}
 	case '{':
 		s.Object = &SchemaObject{}
 		// do we need to isolate these decoders?
 		if err := json.UnmarshalDecode(dec, s.Object); err != nil {
-			return fmt.Errorf("decoding union: %w", err)
+			return err
 		}
 
 		s.Type = s.Object.Type
